@@ -422,6 +422,7 @@ def no_realloc(ctx, taint, wiping_adts):
                 try:
                     from . import ilen
                     ilen.ENGINE = ctx.eng
+                    ilen.CTX = ctx
                     capp = ilen.ival(cap)
                     total = {}
                     for e, nest in zip(pushes, per_push):
